@@ -106,9 +106,13 @@ fn run(c: &Case) -> Run {
     let ps = attohttpc::ProxySettings::builder().https_proxy(url::Url::parse(proxy_url(c.cred)).unwrap()).build();
     let req = c.req;
     let res = guarded(move || {
+        // the session carries header fields of its own (they are the caller's as well)
+        let mut session = attohttpc::Session::new();
+        session.header("User-Agent", "agent/1 (key S3CRET-T0KEN)");
+        session.header("X-Session", "S3CRET-T0KEN");
         let rb = match req {
-            Req::Get => attohttpc::get(&url),
-            Req::PostSecret => attohttpc::post(&url),
+            Req::Get => session.get(&url),
+            Req::PostSecret => session.post(&url),
         };
         let rb = rb.proxy_settings(ps).header("Authorization", "Bearer S3CRET-T0KEN").header("X-Caller", "S3CRET-T0KEN");
         match req {
@@ -583,6 +587,57 @@ fn lab_part(ctx: &Ctx) -> u64 {
                         ctx.violation("C12:secret-in-clear", format!("{desc}: the CONNECT request carries request secrets"), replay.clone(), n);
                     }
                 }
+            }
+        }
+    }
+    // the same host, the scheme changes (the usual upgrade to https) and the proxies differ per scheme:
+    // the proxy choice of each hop follows that hop's URL
+    for only_https_proxied in [true, false] {
+        for status in [301u16, 307] {
+            n += 1;
+            let _ = lab.take_log();
+            let root = native_tls::Certificate::from_pem(&tlslab::pem("root", "crt")).unwrap();
+            let purl = url::Url::parse("http://proxy.test:3128").unwrap();
+            attohttpc::verif::set_resolution("proxy.test", Some(vec![lab.proxy.addr]));
+            attohttpc::verif::set_resolution("good.test", Some(vec![lab.origin4.addr]));
+            let (start, ps, desc);
+            if only_https_proxied {
+                // hop 1 direct and plain, hop 2 through a tunnel
+                lab.origin4.set(|c| c.response = format!("HTTP/1.1 {status} Moved\r\nLocation: https://good.test:8443/up\r\nContent-Length: 0\r\n\r\n").into_bytes());
+                lab.proxy.set(|c| c.inner_cert = Some("good".to_string()));
+                start = format!("http://good.test:{}/start", lab.origin4.addr.port());
+                ps = attohttpc::ProxySettings::builder().https_proxy(purl.clone()).build();
+                desc = format!("GET {start} with only https proxied, answered {status} -> https://good.test:8443/up");
+            } else {
+                // hop 1 through the http proxy (absolute form), hop 2 direct TLS
+                let port = lab.origin4.addr.port();
+                lab.proxy.set(|c| c.response = format!("HTTP/1.1 {status} Moved\r\nLocation: https://good.test:{port}/up\r\nContent-Length: 0\r\n\r\n").into_bytes());
+                lab.origin4.set(|c| c.outer_cert = Some("good".to_string()));
+                start = "http://good.test/start".to_string();
+                ps = attohttpc::ProxySettings::builder().http_proxy(purl.clone()).build();
+                desc = format!("GET {start} with only http proxied, answered {status} -> https://good.test:{port}/up");
+            }
+            let res = guarded(|| attohttpc::get(&start).proxy_settings(ps).add_root_certificate(root).timeout(std::time::Duration::from_secs(10)).send().and_then(|r| r.bytes()));
+            attohttpc::verif::set_resolution("proxy.test", None);
+            attohttpc::verif::set_resolution("good.test", None);
+            let log = lab.requests(if only_https_proxied { 3 } else { 2 });
+            let reqs: Vec<(&'static str, u8, String)> = log
+                .iter()
+                .filter_map(|e| if let Entry::Request { listener, layer, bytes } = e { Some((*listener, *layer, String::from_utf8_lossy(bytes).lines().next().unwrap_or("").to_string())) } else { None })
+                .collect();
+            let expected: Vec<(&'static str, u8, String)> = if only_https_proxied {
+                vec![("origin4", 0, "GET /start HTTP/1.1".to_string()), ("proxy", 0, "CONNECT good.test:8443 HTTP/1.1".to_string()), ("proxy", 1, "GET /up HTTP/1.1".to_string())]
+            } else {
+                vec![("proxy", 0, "GET http://good.test/start HTTP/1.1".to_string()), ("origin4", 0, "GET /up HTTP/1.1".to_string())]
+            };
+            ctx.outcome(format!("lab:scheme-upgrade:{}", if reqs == expected { "as-expected" } else { "other" }));
+            if reqs != expected || !matches!(&res, Ok(Ok(b)) if b == b"ok") {
+                ctx.violation(
+                    "C12:proxy-choice-not-per-hop",
+                    format!("{desc}: the peers saw {reqs:?}, expected {expected:?}; result {}", format!("{res:?}").chars().take(100).collect::<String>()),
+                    json!({"engine": "c12", "lab": true, "scheme_upgrade": true}),
+                    n,
+                );
             }
         }
     }
